@@ -20,5 +20,13 @@ def run(chk):
                                       drain=False, timeout_advance=False):
             tr2 = et.replay_then_resume(prog, list(sched))
             items.append((label, prog, (), tr2, list(sched) + [["snapshot+resume"]]))
+    # a follow-up run on the SAME context after its run has ended while other work was still in flight (a racing StopEvent):
+    # the new run's initial state carries that work, and the live engine and the replay must treat it alike
+    for (label, prog) in [("double_stop+reuse", sc.double_stop(2)), ("racing_stop+reuse", sc.racing_writers("cancel"))]:
+        for (tr, sched) in et.explore(prog, max_depth=chk.pick(6, 8), max_paths=chk.pick(10, 60), rng=random.Random(rng.random()),
+                                      drain=False, timeout_advance=False):
+            tr2 = et.replay_then_reuse(prog, list(sched))
+            if tr2 is not None:
+                items.append((label, prog, (), tr2, list(sched) + [["reuse_context"]]))
     eg.standard_run(chk, "C11", None, {"tick", "inspect"}, keep=lambda r: r["e"] == "inspect" or "rebuilt" in r, items=items)
     chk.add(ticks_compared=0)
